@@ -28,6 +28,9 @@ def dotted(e: ast.AST) -> Optional[str]:
 
 def _version_test(test: ast.AST) -> Optional[bool]:
     """Fold `sys.version_info <op> (a, b)` for the interpreter the checks reason about (3.12)."""
+    if isinstance(test, ast.UnaryOp) and isinstance(test.op, ast.Not):
+        v = _version_test(test.operand)
+        return None if v is None else not v
     if not (isinstance(test, ast.Compare) and len(test.ops) == 1):
         return None
     left, right = test.left, test.comparators[0]
@@ -61,6 +64,105 @@ class _PruneVersion(ast.NodeTransformer):
             return node
         chosen = node.body if v else node.orelse
         return chosen or [ast.copy_location(ast.Pass(), node)]
+
+
+_TERMINATORS = (ast.Return, ast.Raise, ast.Break, ast.Continue)
+
+
+class _NormaliseIf(ast.NodeTransformer):
+    """Spelling normalisation applied to every module before any rule looks at it (semantics-preserving):
+
+    * `if not X: A else: B`            ->  `if X: B else: A`        (only when there is an else branch)
+    * `if X: ...; <terminator> else: B` ->  `if X: ...; <terminator>` followed by B
+      (the else of a branch that cannot fall through is the code after the if)
+
+    so that rules written against one spelling of a two-way branch hold for the mirrored one."""
+
+    def _flip(self, node: ast.If):
+        while node.orelse and isinstance(node.test, ast.UnaryOp) and isinstance(node.test.op, ast.Not):
+            node.test = node.test.operand
+            node.body, node.orelse = node.orelse, node.body
+        return node
+
+    def _block(self, stmts):
+        out = []
+        for st in stmts:
+            st = self.visit(st)
+            if isinstance(st, list):
+                out.extend(st)
+                continue
+            if isinstance(st, ast.If):
+                st = self._flip(st)
+                if st.orelse and st.body and isinstance(st.body[-1], _TERMINATORS):
+                    tail = st.orelse
+                    st.orelse = []
+                    out.append(st)
+                    out.extend(self._block_done(tail))
+                    continue
+            out.append(st)
+        return out
+
+    def _block_done(self, stmts):
+        # statements already visited; only re-apply the flattening at this level
+        out = []
+        for st in stmts:
+            if isinstance(st, ast.If) and st.orelse and st.body and isinstance(st.body[-1], _TERMINATORS):
+                tail = st.orelse
+                st.orelse = []
+                out.append(st)
+                out.extend(self._block_done(tail))
+            else:
+                out.append(st)
+        return out
+
+    def visit_FunctionDef(self, node):
+        counts = {}
+        for n in ast.walk(node):
+            if isinstance(n, ast.Name):
+                counts[n.id] = counts.get(n.id, 0) + 1
+        prev = getattr(self, "_counts", None)
+        self._counts = counts
+        try:
+            return self.generic_visit(node)
+        finally:
+            self._counts = prev
+
+    visit_AsyncFunctionDef = visit_FunctionDef
+
+    def _inline_returns(self, stmts):
+        """`x = E; return x` with x used nowhere else in the function  ->  `return E`."""
+        counts = getattr(self, "_counts", None)
+        if not counts:
+            return stmts
+        out = []
+        i = 0
+        while i < len(stmts):
+            st = stmts[i]
+            nx = stmts[i + 1] if i + 1 < len(stmts) else None
+            if (
+                isinstance(st, ast.Assign) and len(st.targets) == 1 and isinstance(st.targets[0], ast.Name)
+                and isinstance(nx, ast.Return) and isinstance(nx.value, ast.Name) and nx.value.id == st.targets[0].id
+                and counts.get(st.targets[0].id, 0) == 2
+            ):
+                out.append(ast.copy_location(ast.Return(value=st.value), st))
+                i += 2
+                continue
+            out.append(st)
+            i += 1
+        return out
+
+    def generic_visit(self, node):
+        for fld in ("body", "orelse", "finalbody"):
+            v = getattr(node, fld, None)
+            if isinstance(v, list) and v and isinstance(v[0], ast.stmt):
+                setattr(node, fld, self._inline_returns(self._block(v)))
+        if isinstance(node, ast.Try):
+            for h in node.handlers:
+                h.body = self._inline_returns(self._block(h.body))
+        if isinstance(node, ast.Match):
+            for c in node.cases:
+                c.body = self._block(c.body)
+        return node
 
 
 @dataclass
@@ -211,6 +313,7 @@ class Repo:
         except SyntaxError as e:
             raise AnalysisError(f"cannot parse {path}: {e}")
         tree = _PruneVersion().visit(tree)
+        tree = _NormaliseIf().visit(tree)
         ast.fix_missing_locations(tree)
         try:
             relpath = str(path.resolve().relative_to(self.root.resolve()))
